@@ -28,7 +28,32 @@ def _loop_of(node, fn):
     return None
 
 
-def text_structure(fn, e, depth=0, follow=True):
+_FOLD = [None]
+
+
+def text_structure(fn, e, depth=0, follow=True, fold=None):
+    """fold: optional callable(expr) -> constant (raising on failure) used for module-level names, e.g. SQL templates."""
+    if fold is not None and depth == 0:
+        _FOLD.append(fold)
+        try:
+            return _ts(fn, e, 0, follow)
+        finally:
+            _FOLD.pop()
+    return _ts(fn, e, depth, follow)
+
+
+def _folded(e):
+    f = _FOLD[-1]
+    if f is None:
+        return None
+    try:
+        v = f(e)
+    except Exception:
+        return None
+    return v if isinstance(v, str) else None
+
+
+def _ts(fn, e, depth=0, follow=True):
     """follow=False: local names are left as variables instead of being expanded through their definitions."""
     if depth > 12:
         return [("var", norm(e))]
@@ -52,6 +77,11 @@ def text_structure(fn, e, depth=0, follow=True):
     if isinstance(e, ast.Name) and not follow:
         return [("var", e.id)]
     if isinstance(e, ast.Name):
+        local_store = any(isinstance(x, ast.Name) and x.id == e.id and isinstance(x.ctx, ast.Store) for x in ast.walk(fn)) if isinstance(fn, ast.AST) else False
+        if not local_store:
+            v = _folded(e)
+            if v is not None:
+                return [("lit", v)] if v else []
         inits = [st for st in walk_no_nested(fn) if isinstance(st, ast.Assign) and len(st.targets) == 1 and isinstance(st.targets[0], ast.Name) and st.targets[0].id == e.id]
         augs = [st for st in walk_no_nested(fn) if isinstance(st, ast.AugAssign) and isinstance(st.target, ast.Name) and st.target.id == e.id and isinstance(st.op, ast.Add)]
         if len(inits) == 1 and not augs:
@@ -94,12 +124,17 @@ def text_structure(fn, e, depth=0, follow=True):
             gen = g.generators[0]
             return [("repeat", norm(gen.iter), _targets(gen.target), text_structure(fn, g.elt, depth + 1, follow), sep)]
         return [("var", norm(e))]
-    if isinstance(e, ast.Call) and isinstance(e.func, ast.Attribute) and e.func.attr == "format" and isinstance(e.func.value, ast.Constant) and isinstance(e.func.value.value, str) \
-            and not any(isinstance(a, ast.Starred) for a in e.args) and not any(k.arg is None for k in e.keywords):
+    tmpl = None
+    if isinstance(e, ast.Call) and isinstance(e.func, ast.Attribute) and e.func.attr == "format":
+        if isinstance(e.func.value, ast.Constant) and isinstance(e.func.value.value, str):
+            tmpl = e.func.value.value
+        elif isinstance(e.func.value, (ast.Name, ast.Attribute)):
+            tmpl = _folded(e.func.value)
+    if tmpl is not None and not any(isinstance(a, ast.Starred) for a in e.args) and not any(k.arg is None for k in e.keywords):
         out = []
         auto = 0
         try:
-            for lit, field, spec, conv in string.Formatter().parse(e.func.value.value):
+            for lit, field, spec, conv in string.Formatter().parse(tmpl):
                 if lit:
                     out.append(("lit", lit))
                 if field is None:
